@@ -30,7 +30,7 @@ log = []
 
 
 def run(cmd, **kw):
-    r = subprocess.run(cmd, shell=isinstance(cmd, str), cwd=wt, env=env, capture_output=True, text=True, **kw)
+    r = subprocess.run(cmd, shell=isinstance(cmd, str), cwd=wt, env=env, capture_output=True, text=True, errors="replace", **kw)
     return r.returncode, (r.stdout + r.stderr)
 
 
